@@ -810,8 +810,24 @@ class Region(object):
         if len(inits) + len(incs) != len(asg) or not inits or len(incs) != 1:
             return False
         cum = None
+        arms = []
         for x in inits:
             r = x.a[1]
+            while r.k == "cast":
+                r = r.a[0]
+            if r.k == "cond":
+                # V = (iv == 0) ? 0 : cum[iv - 1]   is the expression form of the if / else initialisation
+                t = estr(r.a[0]).replace(" ", "")
+                first, rest = (r.a[1], r.a[2]) if t in ("(%s==0)" % iv, "(0==%s)" % iv, "(%s<1)" % iv, "(%s<=0)" % iv) else \
+                    ((r.a[2], r.a[1]) if t in ("(%s!=0)" % iv, "(%s>0)" % iv, "(%s>=1)" % iv, "(0!=%s)" % iv, "(0<%s)" % iv, iv) else (None, None))
+                if first is None or not (first.k == "int" and first.val == 0) or (rest.k == "int"):
+                    return False
+                arms.append(rest)
+            else:
+                arms.append(r)
+        for r in arms:
+            while r.k == "cast":
+                r = r.a[0]
             if r.k == "int" and r.val == 0:
                 continue
             if r.k == "idx" and r.a[0].k == "var" and estr(r.a[1]) == "(%s - 1)" % iv:
